@@ -83,6 +83,12 @@ func (k Keeper) OpenConsolidate(ctx sdk.Context, existingMtp *types.MTP, newMtp 
 		return nil, err
 	}
 
+	// The health above was computed before the accounted pool was refreshed by the hook;
+	// the position must still be healthy in the state it is left in
+	if err = k.CheckMTPHealthAfterOpen(ctx, existingMtp, baseCurrency); err != nil {
+		return nil, err
+	}
+
 	return &types.MsgOpenResponse{
 		Id: existingMtp.Id,
 	}, nil
